@@ -1097,7 +1097,14 @@ pub fn run_x(line: &str) -> Result<String, String> {
 	};
 	let mut read_back = vec![];
 	match apache_avro::Reader::new(&file[..]) {
-		Err(e) => return Ok(format!("judged # VIOLATION apache-avro rejects the header of a file the writer produced: {e}")),
+		Err(e) => {
+			// its schema parser accepted this very text (checked above and at generation); its
+			// reader resolves names separately and fails on some orders of definition and reference
+			if e.to_string().contains("Unresolved schema reference") {
+				return Ok("judged # n/a apache-avro's reader cannot resolve a reference that its own parser accepted".into());
+			}
+			return Ok(format!("judged # VIOLATION apache-avro rejects the header of a file the writer produced: {e}"));
+		}
 		Ok(reader) => {
 			for item in reader {
 				match item {
